@@ -85,6 +85,17 @@ def shaped(params, body, ret, shape, site, fnitems, opidx=0):
         return f"|{params}| -> {ret} {{ {body} }}"
     if shape == "macro":
         return f"rt::clos!({c})"
+    if shape == "field":
+        return f"rt::sem::hold({c}).f"
+    if shape == "method":
+        return f"rt::sem::hold({c}).get()"
+    if shape == "index":
+        return f"[{c}][0]"
+    if shape == "ref":
+        return f"&{c}"
+    if shape == "ifelse":
+        fnitems.append(f"fn f_{site}({params}) -> {ret} {{ {body} }}")
+        return f"if rt::sem::yes() {{ f_{site} }} else {{ f_{site} }}"
     raise ValueError(shape)
 
 
